@@ -252,6 +252,54 @@ impl Gen {
       b = push(b, &[11]);
       b = push(b, &Self::id_value(id));
     }
+    if self.rng.chance(1, 7) {
+      // properties field (tag 17): a real gallery, attributes only, or damaged CBOR
+      let id = self.some_id(own);
+      let mut props = ord::Properties::default();
+      let cbor: Vec<u8> = match self.rng.below(8) {
+        0..=3 => {
+          props.gallery.push(ord::Item { id: Some(id), attributes: Default::default(), index: None });
+          if self.rng.chance(1, 3) {
+            let id2 = self.some_id(own);
+            props.gallery.push(ord::Item { id: Some(id2), attributes: Default::default(), index: None });
+          }
+          dist.hit("env_gallery");
+          ord::verif::props::to_inline_cbor(&props).unwrap_or_default()
+        }
+        4 => {
+          props.gallery.push(ord::Item { id: Some(id), attributes: Default::default(), index: None });
+          let mut c = ord::verif::props::to_inline_cbor(&props).unwrap_or_default();
+          if !c.is_empty() {
+            let at = self.rng.below(c.len() as u64) as usize;
+            c[at] ^= 1 << self.rng.below(8);
+          }
+          dist.hit("env_properties_mutated");
+          c
+        }
+        5 => {
+          // a map header that claims an absurd number of entries
+          dist.hit("env_properties_huge_len");
+          let mut c = vec![0xa1, self.rng.below(3) as u8, 0xa1, self.rng.below(3) as u8, 0xbb];
+          c.extend([0xff; 8]);
+          c
+        }
+        6 => {
+          dist.hit("env_properties_huge_len");
+          let mut c = vec![0xa1, 0x00, 0x9b];
+          c.extend([0xff; 8]);
+          c
+        }
+        _ => {
+          dist.hit("env_properties_random");
+          let n = self.rng.below(40) as usize;
+          self.rng.bytes(n)
+        }
+      };
+      for chunk in cbor.chunks(520) {
+        b = push(b, &[17]);
+        b = push(b, chunk);
+      }
+    }
     if self.rng.chance(1, 14) {
       // unknown odd tag: ignored
       b = push(b, &[21]);
